@@ -176,10 +176,28 @@ fn make(kind: Kind, cap: usize) -> Arc<dyn Subject> {
     match (kind, cap) {
         (Kind::Index, c) => Arc::new(IndexQueue::new(c)),
         (Kind::Overflow, c) => Arc::new(SafelyOverflowingIndexQueue::new(c)),
-        (Kind::Generic, 1) => Arc::new(Queue::<u64, 1>::new()),
-        (Kind::Generic, 2) => Arc::new(Queue::<u64, 2>::new()),
-        (Kind::Generic, _) => Arc::new(Queue::<u64, 3>::new()),
+        (Kind::Generic, 1) => Arc::new(poisoned::<1>()),
+        (Kind::Generic, 2) => Arc::new(poisoned::<2>()),
+        (Kind::Generic, _) => Arc::new(poisoned::<3>()),
     }
+}
+
+/// Never a pushed value. The slots of the generic queue are `MaybeUninit`: what a premature read
+/// returns would otherwise depend on what earlier executions left in the reused heap memory, and
+/// the same schedule would not fail the same way in the replay process.
+const POISON: u64 = 0xDEAD_BEEF;
+
+fn poisoned<const N: usize>() -> Queue<u64, N> {
+    let q = Queue::<u64, N>::new();
+    {
+        let mut p = q.acquire_producer().expect("fresh queue");
+        let mut c = q.acquire_consumer().expect("fresh queue");
+        for _ in 0..N {
+            p.push(&POISON);
+            c.pop();
+        }
+    }
+    q
 }
 
 #[derive(Clone, Copy, PartialEq)]
